@@ -422,7 +422,7 @@ def evaluate_case(case, lv=None):
     und = []
     if hu is not None:
       uobs, _, uerr = lv.recover(hu, None, False)
-      und = [uobs]
+      und = [uobs, 1]    # 1: the model confirms that this history satisfies the hypothesis of C15_recover_from_stored_proposals
       sh = shape(cfg)
       if uerr is not None:
         hits.append(('C15/undelivered-reward/recover-raises/%s/%s' % (sh, uerr.split(':')[0]), 'recover() raises %s when the last reward is in the history but was never fed back (crash point %d)' % (uerr, c), c))
@@ -438,7 +438,7 @@ def evaluate_case(case, lv=None):
     ptm = []
     if hp is not None:
       pobs, _, perr = lv.recover(hp, None, False)
-      ptm = [pobs]
+      ptm = [pobs, 1]
       sh = shape(cfg)
       if perr is not None:
         hits.append(('C15/proposal-time-metadata/recover-raises/%s/%s' % (sh, perr.split(':')[0]), 'recover() raises %s when the history holds the DNAs as they were proposed (no feedback metadata) (crash point %d)' % (perr, c), c))
@@ -643,9 +643,9 @@ def plan(ctx):
   cases = [('corpus', c) for c in corpus_cases()] + exhaustive_cases(ctx)
   for kind in KINDS:
     for w in (0, 1, 2, 3):
-      for n in ctx.scale([9], [6, 14, 30]):
+      for n in ctx.scale([8], [6, 14, 30]):
         cases.append(('lag%d' % w, gen_case(rng, kind, n=n, lag=w)))
-    for _ in range(ctx.scale(6, 120)):
+    for _ in range(ctx.scale(5, 120)):
       cases.append(('random', gen_case(rng, kind)))
   return cases
 
